@@ -1,2 +1,8 @@
 #!/bin/sh
-exit 0
+# builds the framework offline from files on disk only
+set -e
+cd "$(dirname "$0")"
+export CARGO_NET_OFFLINE=true
+(cd tools/vx-extract && cargo build --release --offline)
+mkdir -p .cache .work evidence replays
+echo "setup ok"
